@@ -78,8 +78,8 @@ class Expect:
                     v = self.desc(sel[f["name"]], depth + 1)
                 else:
                     v = self.zero(f["t"])
-                if v not in ("zero", "nil"):
-                    allzero = False
+                if v != self.zero(f["t"]):
+                    allzero = False      # e.g. an interface field holding a pointer to a zero struct is not zero
                 parts.append("%s:%s" % (f["name"], v))
             body = "zero" if allzero else "T%d{%s}" % (it["outs"][0] // 2, ",".join(parts))
             return ("&" if t % 2 else "") + body
